@@ -6,7 +6,9 @@
    and assumed by the refinement theorems (Proofs/CoreRefine.v ...); here it is proved for every step of lstep, for
    concat_l and for whole L1 histories, under the boolean side condition step_fits defined below. *)
 From Coq Require Import ZArith NArith List Bool Lia Arith String.
-From DM Require Import Base.PyVal Spec.Nf Spec.Table Spec.Ops Model.LTable Gen.KCore Model.Core
+From DM Require Import Base.PyVal Spec.Nf Spec.Table Spec.Ops Model.LTable Gen.KCore Model.Core.
+From DM Require Export Model.CoreRun.
+From DM Require Import
   Proofs.ListX Proofs.MergeFacts Proofs.TableFacts Proofs.CoreRefine Proofs.SetColRefine Proofs.ConcatRefine.
 Import ListNotations.
 Open Scope nat_scope.
@@ -1000,61 +1002,8 @@ Proof.
     apply copy_col_inv; [exact Hinv|lia|]. rewrite Hkind. eapply forallb_take_pos; eassumption.
 Qed.
 
-(* ---------- L1 histories ----------
-   lstep leaves the two operations that create a family to its callers (Run/RCore.v reads the new family off the dump):
-   here DataMatrix(length=n) is the empty table on Index(n), a << b is concat_l, and the family counter advances as
-   in Spec.Ops.step.  A pool is updated by LNew = append, LUpd i / LErrUpd i = replace. *)
-Definition lnew (fam n : nat) : ltable :=
-  {| l_fam := fam; l_rowid := idx_range n; l_names := []; l_cols := []; l_sorted := true; l_dflt := KMixed |}.
-
-(* Row.__setitem__ / DataMatrix.__setitem__ on a missing name: a column of the default type holding default cells *)
-Definition create_default (t : ltable) (name : string) : ltable :=
-  lbind t name (List.length (l_cols t))
-        (l_cols t ++ [{| lc_kind := l_dflt t; lc_rowid := idx_of_list (ia (l_rowid t));
-                         lc_cells := repeat (default_cell (l_dflt t)) (nrows_l t); lc_owner := true; lc_tc := true |}]).
-
-Definition lstep_all (p : list ltable) (nf : nat) (o : op) : lres :=
-  match o with
-  | ONew n => LNew (lnew nf n)
-  | OSetCol ti name r =>
-      (* dm[name] = value on a MISSING name: the column is created first (it stays when the coercion raises), then
-         the step on an existing column applies *)
-      match nth_error p ti with
-      | Some t => match lookup name (l_names t) with
-                  | Some _ => lstep p o
-                  | None => lstep (set_nth ti (create_default t name) p) o
-                  end
-      | None => LSkip
-      end
-  | OConcat ti t2i =>
-      match nth_error p ti, nth_error p t2i with
-      | Some a, Some b => match concat_l a b nf with Ok r => LNew r | Raise _ => LErr end
-      | _, _ => LSkip
-      end
-  | _ => lstep p o
-  end.
-
-Definition lapply (p : list ltable) (x : lres) : list ltable :=
-  match x with
-  | LNew r => p ++ [r]
-  | LUpd i r | LErrUpd i r => set_nth i r p
-  | LErr | LSkip => p
-  end.
-
-Definition next_fam (nf : nat) (o : op) (x : lres) : nat :=
-  match o, x with
-  | ONew _, _ => S nf
-  | OConcat _ _, LNew _ => S nf
-  | _, _ => nf
-  end.
-
-Fixpoint lrun_from (ops : list op) (p : list ltable) (nf : nat) : list ltable :=
-  match ops with
-  | [] => p
-  | o :: r => let x := lstep_all p nf o in lrun_from r (lapply p x) (next_fam nf o x)
-  end.
-Definition lrun (ops : list op) : list ltable := lrun_from ops [] 0.
-
+(* ---------- L1 histories: lnew, create_default, lstep_all, lapply, next_fam, lrun_from, lrun are defined in
+   Model/CoreRun.v (so that the run-time comparators can use them without depending on any proof) ---------- *)
 (* every step of the history satisfies step_fits on the pool it is applied to *)
 Fixpoint hist_fits_from (ops : list op) (p : list ltable) (nf : nat) : bool :=
   match ops with
